@@ -245,6 +245,10 @@ def check_F3(ctx, facts, cfg):
                     if s['lhs']['l'] == cl and s['rv']['k'] == 'aggregate':
                         cdef = s['rv']['def']
                 cb = facts.bodies.get(cdef) if cdef else None
+                fn_item = (op_const(me[0][1]['args'][1]) or {}).get('fn')
+                if cb is None and fn_item:
+                    # a named function instead of a closure: Status::invalid itself (taking the error) or a function that returns it
+                    cb = facts.body(strip_generics(fn_item))
                 good = cb is not None and any(cname(t) == 'datacake_rpc::net::status::Status::invalid' for _b, t in cb.calls())
             else:
                 # explicit match on the result: every failure return reached from its Err edge is built from Status::invalid()
